@@ -13,7 +13,7 @@
    NOT PROVED: that equality of two invocations persists through rebuild, that slot sets only shrink,
    and the direction of the live-class / slot / symmetry components.  These are decided per run, after
    every operation, on the implementation and against the model. *)
-From SE Require Import EGraph.Model EGraph.ModelMachine EGraph.ModelFacts EGraph.UnionFindFacts EGraph.InvariantFacts EGraph.UnionInvariantFacts.
+From SE Require Import EGraph.Model EGraph.ModelMachine EGraph.ModelFacts EGraph.UnionFindFacts EGraph.InvariantFacts EGraph.UnionInvariantFacts EGraph.AddCoversFacts.
 From Coq Require Import Lia.
 
 Theorem C13_add_alloc_monotone : forall t s a s', add_expr t s = Ok (a, s') ->
@@ -87,8 +87,8 @@ Print Assumptions C13_eq_reflexive_symmetric_insertion_only.
    shrink_slots, gadd_set, handle_pending, congruence, self-symmetries), provided the invocations handed to union
    cover their classes' slots.  That proviso is an executable check on the run (unions_coveredb: replays the
    history and tests both handles of every union); it is evaluated for every explored history by the correspondence
-   (machine `egc`).  The remaining gap to an unconditional statement is add_covers_ok (the invocation returned by
-   add_expr covers its class), stated and used as a premise in UnionInvariantFacts.v (reachable_eq_equivalence). *)
+   (machine `egc`).  EGraph/AddCoversFacts.v closes the gap (every invocation returned by add_expr covers its class,
+   through an invariant on the stored node bijections): see the unconditional theorem below. *)
 Theorem C13_eq_is_an_equivalence_on_reachable_states : forall terms ops hs s,
   run_ops terms ops [] empty_egraph = Ok (hs, s) ->
   unions_coveredb terms ops [] empty_egraph = true ->
@@ -104,3 +104,26 @@ Theorem C13_union_preserves_invariant : forall l r s b s', eg_inv2 s -> covers s
   eg_union l r s = Ok (b, s') -> eg_inv2 s' /\ ext s s'.
 Proof. exact inv_eg_union. Qed.
 Print Assumptions C13_union_preserves_invariant.
+
+(* UNCONDITIONAL (EGraph/AddCoversFacts.v): in every state reachable by insertions and unions the invariant holds,
+   every handle ever returned still covers its class, and equality is reflexive, symmetric and transitive on
+   covered invocations - in particular on the handles: an old handle stays valid, stays equal to itself, and two
+   handles that compare equal are interchangeable in any later comparison. *)
+Theorem C13_eq_equivalence_unconditional : forall terms ops hs s,
+  run_ops terms ops [] empty_egraph = Ok (hs, s) ->
+  eg_inv2 s /\ List.Forall (covers s) hs /\
+  (forall a, covers s a -> eg_eq s a a = Ok true) /\
+  (forall a b, covers s a -> covers s b -> exists x, eg_eq s a b = Ok x /\ eg_eq s b a = Ok x) /\
+  (forall a b c, covers s a -> covers s b -> covers s c ->
+     eg_eq s a b = Ok true -> eg_eq s b c = Ok true -> eg_eq s a c = Ok true).
+Proof. exact reachable_eq_equivalence_all. Qed.
+Print Assumptions C13_eq_equivalence_unconditional.
+
+Theorem C13_handles_equivalence : forall terms ops hs s,
+  run_ops terms ops [] empty_egraph = Ok (hs, s) ->
+  (forall a, List.In a hs -> eg_eq s a a = Ok true) /\
+  (forall a b, List.In a hs -> List.In b hs -> exists x, eg_eq s a b = Ok x /\ eg_eq s b a = Ok x) /\
+  (forall a b c, List.In a hs -> List.In b hs -> List.In c hs ->
+     eg_eq s a b = Ok true -> eg_eq s b c = Ok true -> eg_eq s a c = Ok true).
+Proof. exact reachable_handles_equivalence. Qed.
+Print Assumptions C13_handles_equivalence.
